@@ -346,8 +346,21 @@ func c10Run(w *run.Worker) {
 	if w.Shard == 0 {
 		w.Note("events", int64(len(events)))
 	}
-	seen := map[string]bool{}
+	// hash of a canonical state -> the smallest depth at which it was met. A state is checked when it is first
+	// met and expanded again whenever it is met at a smaller depth (a state first met as a leaf still has
+	// successors within the bound when it is met again nearer the root).
+	seen := map[uint64]uint8{}
 	transitions := int64(0)
+	// the deepest level of the thorough tier uses the events about the keys a, t1 and n1 only
+	var core []*c10Event
+	for _, ev := range events {
+		if arg := ev.Src[strings.Index(ev.Src, "("):]; !strings.Contains(arg, "message") && !strings.Contains(arg, "n2") && !strings.Contains(arg, "_") {
+			core = append(core, ev)
+		}
+	}
+	if w.Shard == 0 {
+		w.Note("core_events(deepest level of the thorough tier)", int64(len(core)))
+	}
 	check := func(n *c10Node, initIdx int) (sound bool) {
 		sound = true
 		cs := canonState(n.pt)
@@ -402,11 +415,16 @@ func c10Run(w *run.Worker) {
 				if n.rp == nil {
 					key += "|untracked"
 				}
-				if seen[key] {
-					continue
+				hk := hash2(key, "", ii)
+				prev, met := seen[hk]
+				if met && (prev == 255 || int(prev) <= n.depth) {
+					continue // met at this depth or nearer the root already, or met before and found corrupted
 				}
-				seen[key] = true
-				if !check(n, ii) {
+				seen[hk] = uint8(n.depth)
+				if met {
+					// checked when first met; expanded again from here because more of the bound is left
+				} else if !check(n, ii) {
+					seen[hk] = 255
 					continue // successors of a corrupted state are not explored: every report is a first violation
 				}
 				if w.WantSample() && n.depth == 3 && len(seen)%97 == 0 {
@@ -415,12 +433,31 @@ func c10Run(w *run.Worker) {
 				if n.depth >= maxDepth || w.Expired() {
 					continue
 				}
-				for _, e2 := range events {
+				next := events
+				if n.depth >= 3 {
+					next = core
+				}
+				for _, e2 := range next {
 					nn, pmsg := c10Step(n, e2)
 					transitions++
 					w.Eval()
 					if nn == nil {
 						w.Violate("C10:panic", pmsg, c10Case{Init: ii, Events: append(append([]string{}, n.path...), e2.Src)})
+						continue
+					}
+					if nn.depth >= maxDepth {
+						// a leaf of the search: checked at once, not queued
+						k2 := canonState(nn.pt)
+						if nn.rp == nil {
+							k2 += "|untracked"
+						}
+						h2 := hash2(k2, "", ii)
+						if _, met := seen[h2]; !met {
+							seen[h2] = uint8(nn.depth)
+							if !check(nn, ii) {
+								seen[h2] = 255
+							}
+						}
 						continue
 					}
 					frontier = append(frontier, nn)
@@ -502,7 +539,7 @@ func init() {
 		Level: "model_checking",
 		Rule: "explicit-state search: states = real input.Point values (measurement, time, tags, fields with Go types AND the key index), initial states = 4 points over {a field, t1 tag, message, small-int/float32 fields} covering every supported field type; " +
 			"transitions = 139 scripts (one builtin call each, incl. the `_` spelling) run by the real engine on a deep clone (add_key x 5 keys x 7 value kinds, add_key(k), set_tag(k[, literal | attribute expression | other key]), add_key(k, attribute expression), drop_key, rename over all ordered key pairs, cast x 4 types, set_measurement(k,true), default_time, uppercase, grok writing typed captures); " +
-			"breadth-first to depth 3 (thorough 4) with de-duplication on the canonical state; in every state: I1 every output key reads back (Point.Get and a script read) with exactly the stored value and type, I2 no key is tag and field, I3 field types, I4 no read returns a value the output lacks, I5 every output key can be dropped and renamed (one-step look-ahead), I6 no two keys share one (pooled) index entry object, I7 a plain-expression read of the event's key inside the event script, directly after the builtin, gives what the point then holds; plus agreement with the reference point model",
+			"breadth-first to depth 3 (thorough: a fourth level over the events about three of the keys) with depth-aware de-duplication on the canonical state (a state is expanded again when met nearer the root); in every state: I1 every output key reads back (Point.Get and a script read) with exactly the stored value and type, I2 no key is tag and field, I3 field types, I4 no read returns a value the output lacks, I5 every output key can be dropped and renamed (one-step look-ahead), I6 no two keys share one (pooled) index entry object, I7 a plain-expression read of the event's key inside the event script, directly after the builtin, gives what the point then holds; plus agreement with the reference point model",
 		Assumptions: []string{"level 1 is sharded across workers, de-duplication is per worker (states reached in several subtrees are checked more than once)", "reference tracking stops after an unspecified cell (rename onto an existing key)"},
 		Run:            c10Run,
 		Replay:         c10Replay,
